@@ -931,6 +931,10 @@ func genBundle(c *ctx, cached bool) {
 			OracleFail: oracle,
 		})
 	}
+	if !cached {
+		// object sharing between a bundle and the bundles derived from it: evaluated on the heap model (c13_heap.go)
+		genBundleHeap(c, c.set.Stream("bundle-heap", "Corr.RunB", "run", 40))
+	}
 }
 
 // knownF7b reproduces the recorded finding F7b on every run: two distinct valid discharges for one ticket,
